@@ -287,6 +287,14 @@ class Ctx:
         if key in self.known:
             self.known_hit[key] = self.known[key]
             return
+        if key.startswith("dev:") and "+" in key:
+            # a behaviour exhibiting several named deviations whose observed output equals the
+            # as-is prediction: excused iff every one of the deviations is a listed finding
+            parts = ["dev:" + p for p in key[4:].split("+")]
+            if all(p in self.known for p in parts):
+                for p in parts:
+                    self.known_hit[p] = self.known[p]
+                return
         n = len(self.violations)
         path = os.path.join(self.replay_dir, "%d.json" % n)
         if n < 50:
